@@ -2,7 +2,8 @@
    transcribed in source order.  Definitions only (proofs are in Proofs/DataLoaderP.v).
 
    What is abstract (an [env]): the log as the reader's index sees it (one record per message), the reader's
-   FileIndex[TimeRange] selection ([e_tfilter], owned by C10/C13), the source identifiers the reader discovered
+   FileIndex[TimeRange] selection ([e_tfilter], owned by C10/C13) and its removal of entries without P1 time
+   ([e_nonnan], reader.filter_out_invalid_p1_times()), the source identifiers the reader discovered
    ([e_avail]) and DataLoader.time_align_data ([e_align], owned by C15).  Every theorem quantifies over all
    environments.  The extracted runner instantiates them with [concrete_env] (time selections and available source
    ids supplied by the implementation's reader, time alignment by the small re-implementation [align_impl]).
@@ -176,6 +177,11 @@ Definition entry_to_numpy (nan keep keepb keepi : bool) (ty : N) (d : data) : da
         | _, None => true
         end
       else true in
+    if do_conversion && negb (Nat.eqb (length (d_bytes d)) 0) then
+      (* np.array(self.message_bytes, dtype=np.uint64) on a non-empty list of bytes objects raises ValueError right
+         after self.__dict__.update(...): the arrays are there, nothing else happened; DataLoader.to_numpy swallows it *)
+      mkData (d_msgs d) (Some (d_msgs d)) (d_idx d) (d_idx_arr d) (d_bytes d) (d_bytes_arr d)
+    else
     let d1 :=
       if do_conversion then
         let rows := d_msgs d in
@@ -196,6 +202,7 @@ Record env := mkEnv {
   e_log : list DLmsg;                                       (* the original index, file order *)
   e_avail : list N;                                         (* reader.get_available_source_ids() *)
   e_tfilter : trange -> list DLmsg -> list DLmsg;           (* FileIndex[TimeRange] *)
+  e_nonnan : list DLmsg -> list DLmsg;                      (* FileIndex.get_time_range(hint='remove_nans'), no bounds *)
   e_align : N -> option (list N) -> list (N * data) -> list (N * data)   (* DataLoader.time_align_data *)
 }.
 
@@ -222,17 +229,18 @@ Definition cache_set (c : N -> option entry) (t : N) (e : entry) : N -> option e
 Definition index_select (e : env) (p : params) (types : list N) (sys_requested : bool) : list DLmsg :=
   let i1 := e_tfilter e (p_tr p) (e_log e) in
   let i2 := filter (fun m => memN (m_type m) types) i1 in
-  if p_p1 p && negb sys_requested then filter (fun m => is_some (m_time m)) i2 else i2.
+  if p_p1 p && negb sys_requested then e_nonnan e i2 else i2.
 
 (* the max-messages pre-slice: slice(None, N) / slice(N, None) on the filtered index *)
 Definition pre_slice (n : Z) (l : list DLmsg) : list DLmsg :=
   if (0 <=? n)%Z then firstn (Z.to_nat n) l else lastn (Z.to_nat (- n)) l.
 
 (* what read_next() hands to the loop and the loop does not skip: source test (requested ∩ available), payload
-   decoded, then `if require_p1_time and get_p1_time() is None: skip  elif require_system_time and ...: skip` *)
+   decoded, then `if require_p1_time and get_p1_time() is None: skip  elif require_system_time and
+   get_system_time_ns() is None: skip` (either test skips) *)
 Definition read_pass (e : env) (p : params) (m : DLmsg) : bool :=
   memN (m_src m) (p_src p) && memN (m_src m) (e_avail e) && m_decodes m &&
-  (if p_p1 p then m_p1_some m else if p_sys p then m_sys_some m else true).
+  (if p_p1 p then m_p1_some m else true) && (if p_sys p then m_sys_some m else true).
 
 (* the `while True:` loop.  count = message_count; acc = messages stored by type / in order; dq = newest_messages *)
 Fixpoint read_loop (v : variant) (maxm : option Z) (use_deque : bool) (pass : DLmsg -> bool)
@@ -355,26 +363,38 @@ Definition fresh (e : env) (a : args) : outcome := snd (read e init_state a).
 (* ------------------------------------------------------------------------------------------------ *)
 (** * SPEC: what the property text says a read returns *)
 
-(* the messages of the log reader under the same filters, no maximum *)
-Definition spec_types (a : args) : list N :=
-  match a_types a with None | Some [] => norm_set all_types | Some l => norm_set l end.
-(* a message the reader returns under the filters of [a].  [all_sources]: a request without source_ids means every
-   source present in the log (true) or only the sources the reader discovered (false) *)
-Definition spec_pass (e : env) (a : args) (all_sources : bool) (m : DLmsg) : bool :=
-  memN (m_type m) (spec_types a)
-  && (match a_src a with None => true | Some s => memN (m_src m) s end)
+(* The property text: "the returned messages are those of the log reader under the same filters, limited to the
+   first N (or last N for negative N) across all requested types in file order".  The reader's filters are the
+   reader's (C10): index selection by time range, requested types and, when P1 time is required, entries with P1
+   time; then the read-time tests (source id requested and available, payload decodes, P1 / system time present). *)
+Definition spec_pass (e : env) (a : args) (p : params) (all_sources : bool) (m : DLmsg) : bool :=
+  (match a_src a with None => true | Some s => memN (m_src m) s end)
   && (all_sources || memN (m_src m) (e_avail e))
   && m_decodes m
-  && (if a_p1 a then m_p1_some m && is_some (m_time m) else true)
-  && (if a_sys a then m_sys_some m else true).
+  && (if p_p1 p then m_p1_some m else true) && (if p_sys p then m_sys_some m else true).
+(* [all_sources]: the reader's own notion of available sources (false), or every source present in the log (true) *)
 Definition spec_selected (e : env) (a : args) (all_sources : bool) : list DLmsg :=
-  filter (spec_pass e a all_sources) (e_tfilter e (a_tr a) (e_log e)).
+  let '(p, types, _) := norm_args e a in
+  let needed := reduce_needed p types in
+  match needed with
+  | [] => []
+  | _ => filter (spec_pass e a p all_sources)
+                (index_select e p types (existsb (fun t => memN t sys_types) needed))
+  end.
 (* first N, or last N for negative N *)
 Definition limit (n : option Z) (l : list DLmsg) : list DLmsg :=
   match n with None => l | Some n => if (0 <=? n)%Z then firstn (Z.to_nat n) l else lastn (Z.to_nat (- n)) l end.
 (* the messages a read must return, in file order across all requested types *)
 Definition spec_messages (e : env) (a : args) (all_sources : bool) : list DLmsg :=
   limit (a_max a) (spec_selected e a all_sources).
+
+(* diagnostic for the runner: (the index pre-slice is applied, number of index entries the read-time tests drop) *)
+Definition diag (e : env) (a : args) : bool * nat :=
+  let '(p, types, _) := norm_args e a in
+  let needed := reduce_needed p types in
+  let sys_requested := existsb (fun t => memN t sys_types) needed in
+  (is_some (p_max p) && negb (p_sys p && sys_requested),
+   length (filter (fun m => negb (read_pass e p m)) (index_select e p types sys_requested))).
 
 (* ------------------------------------------------------------------------------------------------ *)
 (** * Concrete environment of the extracted runner *)
@@ -391,7 +411,7 @@ Definition tfilter_table (tab : list (trange * list N)) (tr : trange) (l : list 
 
 (* DataLoader.time_align_data, the behaviour used here: np.intersect1d / np.unique on float(m.p1_time), NaN = None *)
 Definition participating (atypes : option (list N)) (ty : N) : bool :=
-  memN ty p1_types && match atypes with None => true | Some l => memN ty l end.
+  memN ty dict_p1_types && match atypes with None => true | Some l => memN ty l end.
 Fixpoint somes {A} (l : list (option A)) : list A :=
   match l with [] => [] | Some x :: l' => x :: somes l' | None :: l' => somes l' end.
 Definition times_of (d : data) : list Z := somes (map rm_time (d_msgs d)).
@@ -430,5 +450,5 @@ Definition align_impl (mode : N) (atypes : option (list N)) (r : list (N * data)
     end
   else r.
 
-Definition concrete_env (log : list DLmsg) (avail : list N) (tab : list (trange * list N)) : env :=
-  mkEnv log avail (tfilter_table tab) align_impl.
+Definition concrete_env (log : list DLmsg) (avail : list N) (tab : list (trange * list N)) (nonnan : list N) : env :=
+  mkEnv log avail (tfilter_table tab) (filter (fun m => memN (m_ord m) nonnan)) align_impl.
